@@ -95,6 +95,11 @@ def run(ctx, rep):
             cases.append(("block_size", bs, header(block_size=bs, sample_rate=("adt", "stream::SampleRate", "Hz44100", 9, []))))
         for sr in enum_values(F, "stream::SampleRate"):
             cases.append(("sample_rate", sr, header(sample_rate=sr, block_size=("adt", "stream::BlockSize", "Samples4096", 11, []))))
+        for bs in enum_values(F, "stream::BlockSize"):
+            if bs[2].startswith("Uncommon"):
+                for sr in enum_values(F, "stream::SampleRate"):
+                    if sr[2] in ("KHz", "Hz", "DHz"):
+                        cases.append(("both", ("tuple", [bs, sr]), header(block_size=bs, sample_rate=sr)))
         base_terms = None
         for field, var, hv in cases:
             rec = []
@@ -114,6 +119,13 @@ def run(ctx, rep):
             rep.check("C02.rfc", "FrameHeader::build %s %s: fixed part" % (field, show(var)),
                       [m for m, a, x in fixed] == want_fixed and fixed[0][1][:2] == [str(spec["sync_bits"]), str(spec["sync_code"])] and fixed[6][2] == ["1"],
                       loc_of(hb), "sync, blocking bit, 4 coded fields, reserved 0 bit, coded number", "header field sequence is %s" % [(m, a) for m, a, x in fixed])
+            if field == "both":
+                t1 = {"Uncommon8": ("write", "8", "Uncommon8.0-1"), "Uncommon16": ("write", "16", "Uncommon16.0-1")}[var[1][0][2]]
+                t2 = {"KHz": ("write", "8", "KHz.0/1000"), "Hz": ("write", "16", "Hz.0"), "DHz": ("write", "16", "DHz.0/10")}[var[1][1][2]]
+                got_tail = [(m, a[0], x[0]) for m, a, x in tail]
+                rep.check("C02.rfc", "FrameHeader::build %s: block-size escape precedes sample-rate escape" % show(var), r[0] == "ret" and got_tail == [t1, t2], loc_of(hb), str(got_tail),
+                          "RFC 9639 9.1: the uncommon block size field comes before the uncommon sample rate field; writer emits %s" % (got_tail,))
+                continue
             name = var[2]
             want_tail = {
                 ("block_size", "Uncommon8"): [("write", "8", "Uncommon8.0-1")],
